@@ -27,6 +27,7 @@ MaxMsg == 16777215
 \* "No input ... crashes the node"
 NoPanicT == /\ S => X.hsPanic = "" /\ X.panic = ""
             /\ X.e \in {"hostile", "hostile-hs"} => X.panic = ""
+            /\ X.e = "peermsg" => X.outcome \in {"returned", "running"}    \* base-protocol messages of a connected peer (disconnect reasons, ping, ...)
 \* an altered handshake packet is rejected by its recipient; an unaltered handshake succeeds and identifies the right keys
 HandshakeT == S => /\ X.tamper.phase = "auth" => X.hsErrR # ""
                    /\ X.tamper.phase = "ack" => X.hsErrI # ""
